@@ -1,9 +1,12 @@
 #!/bin/bash
-# usage: tools_recheck.sh <seed-dir-name> <PROP...>   re-runs checks against an already confirmed seeded change
-S=/verif/seeded/$1; shift
-cd /repo && git apply $S/patch.diff || exit 3
+# usage: tools_recheck.sh <seed-dir-name> <PROP...>   re-runs checks against an already confirmed seeded change (scratch copy)
+S=/verif/seeded/$1; N=$1; shift
+SCR=/tmp/recheck-$N; ALTD=/tmp/recheckalt-$N
+git -C /repo worktree remove --force $SCR 2>/dev/null; rm -rf $SCR $ALTD; mkdir -p $ALTD
+git -C /repo worktree add -q --detach $SCR HEAD || exit 2
+( cd $SCR && git apply $S/patch.diff ) || { echo "patch does not apply"; exit 3; }
 for Q in "$@"; do
-  ( cd /verif && timeout 1500 ./check $Q > $S/check_$Q.log 2>&1 ); C=$?
+  ( cd /verif && VERIF_REPO=$SCR VERIF_ALT=$ALTD timeout 1500 ./check $Q > $S/check_$Q.log 2>&1 ); C=$?
   echo "recheck ./check $Q: exit $C  $(grep -c '^VIOLATION' $S/check_$Q.log) violation lines; first: $(grep -m1 'check=' $S/check_$Q.log | cut -c1-260)" | tee -a $S/confirm.log
 done
-cd /repo && git checkout -- . && git status --short | head -3
+git -C /repo worktree remove --force $SCR; rm -rf $SCR $ALTD
